@@ -177,7 +177,12 @@ class OLin:
             raise Reject("use-not-owned")
 
     def _no_borrowed(self, p: Place, rule: str) -> None:
-        if root(p) in self.borrowed:
+        # A borrowed *variable* may not be consumed (guppy: NotOwnedError).  A field of a borrowed
+        # struct is an ordinary linear leaf: it may be moved out provided it is owned again at every
+        # exit (at_exit: borrowed-not-returned; guppy: BorrowSubPlaceUsedError) — "borrowed arguments
+        # ... are handed back".  The model used to reject every consumption below a borrowed root;
+        # the thorough tier produced `p0.a = p0.a` on a borrowed p0, which guppy rightly accepts.
+        if p[0] == "v" and root(p) in self.borrowed:
             raise Reject(rule)
 
     def _leaves_of(self, r: str) -> list[Place]:
@@ -188,7 +193,7 @@ class OLin:
         return [("v", r)]
 
     def _assign_leaf(self, st: frozenset, p: Place) -> frozenset:
-        if root(p) in self.borrowed:
+        if p[0] == "v" and root(p) in self.borrowed:
             raise Reject("shadow-borrowed")
         if p in st:
             raise Reject("overwrite-leaks")
@@ -395,7 +400,8 @@ class LinGen:
         return fn
 
     def movable(self, owned: set) -> list[Place]:
-        return [p for p in owned if root(p) not in self.borrowed]
+        # fields of a borrowed struct may be moved out (and are put back by `settle` / later statements)
+        return [p for p in owned if not (p[0] == "v" and root(p) in self.borrowed)]
 
     def exit_target(self, owned: set) -> set:
         return {lf for lf in self.fn.leaves() if root(lf) in self.borrowed}
@@ -433,8 +439,8 @@ class LinGen:
             leaves = self.fn.leaves()
             own_l = sorted(owned)
             mov = sorted(self.movable(owned))
-            free = sorted(p for p in leaves if p not in owned and root(p) not in self.borrowed
-                          and p[0] != "t")
+            free = sorted(p for p in leaves if p not in owned and p[0] != "t"
+                          and not (p[0] == "v" and root(p) in self.borrowed))
             if choice < 0.2 and own_l:
                 k = 2 if len(own_l) >= 2 and r.random() < 0.4 else 1
                 out.append(("borrow", r.sample(own_l, k), r.random() < 0.5))
